@@ -55,10 +55,16 @@ void spawn(F&& f, pika::execution::thread_priority prio = pika::execution::threa
     auto sched = ex::with_priority(ex::thread_pool_scheduler{}, prio);
     ex::execute(sched, std::forward<F>(f));
 }
-// watch the calling task's thread_data (state word, refcount, ...)
-inline void watch_self(const char* name)
+// watch the calling task's whole thread_data (state word, refcount, last worker, ...)
+inline void watch_self_full(const char* name)
 {
     auto* td = pika::threads::detail::get_self_id_data();
     if (td) pmc_watch(td, sizeof(pika::threads::detail::thread_data), name);
+}
+// watch only the calling task's state word (state, restart state, tag)
+inline void watch_self(const char* name)
+{
+    auto* td = pika::threads::detail::get_self_id_data();
+    if (td) pmc_watch(&td->current_state_, sizeof(td->current_state_), name);
 }
 }    // namespace rt
